@@ -18,7 +18,7 @@ EXTENDS Naturals, Sequences, TLC
 
 CONSTANTS MaxRefs,      \* bound on live copies of each handle kind
           Kinds,        \* subset of {"void","copy","move"}
-          Bodies,       \* what the continuation body does: "none","destroyCtx","dropOthers"
+          Bodies,       \* what the continuation body does: "none","destroyCtx","dropOthers","refinish"
           MaxHist       \* bound on the number of operations of a behaviour
 
 VARIABLES kind,         \* result type of this promise/task family
@@ -108,7 +108,16 @@ DropAll ==
 (* --- the user continuation runs: body b, executing on handle kind h ---- *)
 \* "dropOthers": the body drops every handle except the one whose member
 \* function is currently executing (h = "p" for finish, "t" for then).
-BodyEffect(b, h) ==
+\* "refinish": the body re-enters the family through a second completion source guarded
+\* by isFinished() (`if (!promise.task().isFinished()) promise.finish(other)`, the idiom of the
+\* library's own managers).  finish() sets the finished flag *before* it hands the value over and
+\* then() only runs a body directly when the flag is already set, so the guard always sees a
+\* finished task and the second completion never happens: no effect here.
+\* An implementation that marks the task finished only after the hand-over runs the
+\* continuation a second time, with the other value.
+\* `seen` is the finished flag as the body reads it.
+BodyEffect(b, h, seen) ==
+    /\ (b = "refinish" => seen)
     /\ ctx' = IF b = "destroyCtx" THEN "dead" ELSE ctx
     /\ pRefs' = IF b = "dropOthers" THEN (IF h = "p" THEN 1 ELSE 0) ELSE pRefs
     /\ tRefs' = IF b = "dropOthers" THEN (IF h = "t" THEN 1 ELSE 0) ELSE tRefs
@@ -125,7 +134,7 @@ Then(b, sc) ==
        THEN \* already finished: run now from the stored value, then reset it
             /\ IF kind = "void" \/ stored
                THEN /\ runs' = runs + 1 /\ got' = finVal
-                    /\ BodyEffect(b, "t")
+                    /\ BodyEffect(b, "t", fin)
                ELSE /\ UNCHANGED <<runs, got>> /\ NoBody
             /\ stored' = FALSE
             /\ due' = TRUE
@@ -148,7 +157,7 @@ Finish(v, b) ==
             THEN \* wrapper: context alive -> f(value); then clears the slot (releasing the
                  \* closure and whatever it captured, a copy of its own task included)
                  /\ runs' = runs + 1 /\ got' = v
-                 /\ BodyEffect(b, "p")
+                 /\ BodyEffect(b, "p", fin')
                  /\ cont' = FALSE /\ selfCap' = FALSE
                  /\ due' = TRUE
                  /\ UNCHANGED stored
